@@ -507,8 +507,12 @@ func TestVerifC10(t *testing.T) {
 			seen := map[[20]byte]bool{}
 			mk := func(p []string) string { b, _ := json.Marshal(vfPoolJob{Sc: sc, Path: p}); return string(b) }
 			handle := func(path []string, r vrt.JobResult) *node {
-				if r.Crashed || r.TimedOut {
-					res.Violate("pool/process-crash-or-hang", fmt.Sprintf("%s size %d path %v: crashed=%v timedOut=%v\n%.1500s", role, size, path, r.Crashed, r.TimedOut, r.Stderr), vfPoolJob{Sc: sc, Path: path})
+				if r.TimedOut {
+					harnessErrs = append(harnessErrs, fmt.Sprintf("worker watchdog expired on %v", path))
+					return nil
+				}
+				if r.Crashed {
+					res.Violate("pool/process-crash", fmt.Sprintf("%s size %d path %v: the worker process died\n%.1500s", role, size, path, r.Stderr), vfPoolJob{Sc: sc, Path: path})
 					return nil
 				}
 				var out vfPoolOut
